@@ -58,7 +58,15 @@ type Sched struct {
 	timeStep  time.Duration
 	maxAdv    int
 	orphans   map[string]int
+	altDesc   [][]string
 }
+
+// ExpectAlts is diagnostic only: the alternatives the parent execution saw at the deviation point of the execution in progress.
+var ExpectAlts []string //nolint:gochecknoglobals
+
+// ExpectAltsAll: the alternatives the parent execution saw at every choice point of the replayed prefix. A replay that
+// sees other alternatives at any of them is not the same execution: reported at the first difference.
+var ExpectAltsAll [][]string //nolint:gochecknoglobals
 
 var cur *Sched //nolint:gochecknoglobals
 
@@ -357,14 +365,26 @@ func Select(site string, hasDefault bool, cases ...Case) *Res {
 	if hasDefault {
 		return &Res{fired: -1}
 	}
+	// Nothing is ready: block on all cases. Two receive cases on one and the same channel (ctx.Done() of a context that
+	// is the loop itself, next to the loop's done channel) would let the runtime choose between them at random when that
+	// channel fires; only the one that comes first in the rotation chosen by the scheduler takes part.
 	var all []reflect.SelectCase
 	var idxs []int
-	for i := range cases {
-		if !cases[i].ch.IsValid() || cases[i].ch.IsNil() {
+	seenRecv := map[uintptr]bool{}
+	for i := 0; i < n; i++ {
+		idx := (k + i) % n
+		if !cases[idx].ch.IsValid() || cases[idx].ch.IsNil() {
 			continue
 		}
-		all = append(all, mk(cases[i]))
-		idxs = append(idxs, i)
+		if cases[idx].dir == reflect.SelectRecv {
+			if p := cases[idx].ch.Pointer(); seenRecv[p] {
+				continue
+			} else {
+				seenRecv[p] = true
+			}
+		}
+		all = append(all, mk(cases[idx]))
+		idxs = append(idxs, idx)
 	}
 	if len(all) == 0 {
 		select {} // a select over nil channels only blocks for ever, as in the original
@@ -532,10 +552,24 @@ func (s *Sched) loop(maxSteps int) {
 		if len(s.choice) < len(s.prefix) {
 			c = s.prefix[len(s.choice)]
 			if c >= len(alts) {
-				panic(fmt.Sprintf("zzmc: replay divergence at choice %d: alternative %d of %d; trace %v", len(s.choice), c, len(alts), s.Trace))
+				var now []string
+				for _, a := range alts {
+					now = append(now, fmt.Sprintf("%s@%s/%d", a.th.path, a.th.site, a.k))
+				}
+				panic(fmt.Sprintf("zzmc: replay divergence at choice %d: alternative %d of %d; enabled now %v; expected %v; trace %v", len(s.choice), c, len(alts), now, ExpectAlts, s.Trace))
 			}
 		}
 		s.nAlt = append(s.nAlt, len(alts))
+		var desc []string
+		for _, a := range alts {
+			desc = append(desc, fmt.Sprintf("%s@%s/%d", a.th.path, a.th.site, a.k))
+		}
+		s.altDesc = append(s.altDesc, desc)
+		if k := len(s.altDesc) - 1; k < len(ExpectAltsAll) && k < len(s.prefix) {
+			if fmt.Sprint(ExpectAltsAll[k]) != fmt.Sprint(desc) {
+				panic(fmt.Sprintf("zzmc: replay divergence already at choice %d: enabled now %v; the parent execution saw %v; trace %v", k, desc, ExpectAltsAll[k], s.Trace))
+			}
+		}
 		s.choice = append(s.choice, c)
 		a := alts[c]
 		s.Trace = append(s.Trace, fmt.Sprintf("%s@%s/%d", a.th.name, a.th.site, a.k))
@@ -692,12 +726,16 @@ func Explore(t *testing.T, sc Scenario, opts Options) Stats {
 		prefix []int
 		dev    int
 		top    int
+		expect []string
+		palts  [][]string
 	}
-	stack := []item{{nil, 0, -1}}
+	stack := []item{{nil, 0, -1, nil, nil}}
 	topCounter := 0
 	for len(stack) > 0 {
 		it := stack[len(stack)-1]
 		stack = stack[:len(stack)-1]
+		ExpectAlts = it.expect
+		ExpectAltsAll = it.palts
 		if opts.MaxExecs > 0 && st.Execs >= opts.MaxExecs {
 			st.Capped = fmt.Sprintf("execution cap %d", opts.MaxExecs)
 
@@ -754,7 +792,7 @@ func Explore(t *testing.T, sc Scenario, opts Options) Stats {
 				p := make([]int, i+1)
 				copy(p, s.choice[:i])
 				p[i] = alt
-				add = append(add, item{p, it.dev + 1, top})
+				add = append(add, item{p, it.dev + 1, top, s.altDesc[i], s.altDesc[:i+1]})
 			}
 		}
 		if it.top < 0 && opts.Shards > 1 && opts.Shard != 0 {
